@@ -146,8 +146,13 @@ func parseParams(value string, eval bool, options buildOpts) (
 			strParam = p.value
 		}
 
-		if err = os.Setenv(strconv.Itoa(i+1), strParam); err != nil {
-			return
+		// The positional parameters are exported only when the DAG is loaded
+		// for execution; listing or validating a definition must not alter
+		// the environment of the loading process.
+		if !options.noEval {
+			if err = os.Setenv(strconv.Itoa(i+1), strParam); err != nil {
+				return
+			}
 		}
 
 		if !options.noEval && p.name != "" {
